@@ -6,7 +6,7 @@ import copy
 
 from .cmdeval import *
 from .cmdeval import _F
-from .props.c03 import make_scsi_device, make_iscsi_device
+from .props.c03 import make_scsi_device, make_iscsi_device, slot, put
 from .rt import *
 from .standin import StandIn
 from .values import *
@@ -72,7 +72,7 @@ class FacadePath:
 
 
 def decode_stub(I, f, locs, node, frame):
-    marker = {"__decoded__": True}
+    marker = SymDict("decoded-response")        # what the decoder returns: a dictionary whose content is the device's
     names = [p.arg for p in f.node.args.args if p.arg not in ("cls", "self")]
     dname = names[0] if names else None
     kw = {k: v for k, v in locs.items() if k not in ("cls", "self", dname)}
@@ -100,10 +100,10 @@ def eval_facade(prog, method, fspec, setname, kwmode, check_condition="fork", tr
     try:
         def thunk():
             dev = make_scsi_device(prog) if transport == "sgio" else make_iscsi_device(prog)
-            dev.attrs["_opcodes"] = enum
+            put(prog, dev, "opcodes", enum)
             s = Instance(scsi_cls)
             s.attrs["device"] = dev
-            s.attrs["_blocksize"] = Sym.param("blocksize", 32, nonzero=True)
+            put(prog, s, "blocksize", Sym.param("blocksize", 32, nonzero=True))
             if after_all:
                 for hm, hspec, hsa in list(history) + [(method, fspec, sa)]:
                     hdoms = dict(refcdb.CDB[hspec["cls"]]["args"])
@@ -136,7 +136,7 @@ def eval_facade(prog, method, fspec, setname, kwmode, check_condition="fork", tr
                     kw[cname] = v
                     byctor[cname] = v
             if fspec["blocksize"]:
-                byctor["blocksize"] = s.attrs["_blocksize"]
+                byctor["blocksize"] = slot(prog, s, "blocksize")
             bm = I.get_attr(s, method, None, _F("facade"))
             pos = []
             if positional:
@@ -148,7 +148,7 @@ def eval_facade(prog, method, fspec, setname, kwmode, check_condition="fork", tr
                     else:
                         break
             r = I.call(bm, pos, kw, None, _F("facade %s" % method))
-            return (r, byctor, dev)
+            return (r, byctor, dev, pub_view(I, r))
 
         for p in I.explore(thunk, max_paths=256):
             args = p.value[1] if p.returned else {}
